@@ -327,8 +327,8 @@ func (c *skctx) block(list []ast.Stmt) string {
 
 type skTarget struct {
 	rel, recv, name, lean string
-	calls               []string
-	objects             []string
+	calls                 []string
+	objects               []string
 }
 
 var skTargets = []skTarget{
